@@ -1,44 +1,116 @@
 --------------------------- MODULE Trace_KeyParser ---------------------------
 (* Trace validation for C17.  Every recorded line is an independent          *)
-(* observation, so validation collects the unexplained lines (variable bad)  *)
-(* and classifies them (known findings vs new).                              *)
+(* observation (a "Mut" line refers to the header of the preceding "Hdr"     *)
+(* line), so validation collects the unexplained lines (variable bad) and    *)
+(* classifies them (known findings vs new).                                  *)
 EXTENDS KeyParser, TraceLib
-VARIABLES l, bad
+VARIABLES l, bad, hc      \* hc: the current library-written header (memo of its parse and of its run)
 
 (* ---- part (a): replay of TLC-generated line sequences ------------------- *)
 \* the driver must have fed exactly the text the specification generated
-RunFed(r) == /\ \A k \in 1..Len(r.gen.ids) : r.gen.ids[k] \in AlphaIds /\ r.gen.text[k] = Alpha[r.gen.ids[k]]
-             /\ Len(r.gen.text) = Len(r.gen.ids)
+RunFed(r) == /\ Len(r.gen.text) = Len(r.gen.ids)
+             /\ \A k \in 1..Len(r.gen.ids) : r.gen.ids[k] \in AlphaIds /\ r.gen.text[k] = Alpha[r.gen.ids[k]]
              /\ r.fed = JoinLines(r.gen.text, r.gen.nl)
-RunExpected(r) == TestRun(r.gen.ids, r.gen.nl)
-RunOk(r) == LET x == RunExpected(r) IN
-            /\ RunFed(r)
-            /\ r.obs.verdict = x.verdict          \* accepted | rejected | error - never abort or hang
-            /\ r.obs.vars = x.st.vars              \* final variable state (also at the point of an error)
+RunOk(r) == /\ RunFed(r)
+            /\ \E x \in {TestRun(r.gen.ids, r.gen.nl)} :
+                 /\ r.obs.verdict = x.verdict          \* accepted | rejected | error - never abort or hang
+                 /\ r.obs.vars = x.st.vars              \* final variable state (also at the point of an error)
 
-Explains(r) ==
+(* ---- part (b): mutated library-written headers -------------------------- *)
+NoHdr == [hid |-> 0]
+HdrInit(kind) == IF kind = "image" THEN ImageInit ELSE PDFSInit
+\* memo of a "Hdr" line: parse of every line, the run of the unmodified header
+HdrMemo(r) ==
+  LET PL == [i \in 1..Len(r.lines) |-> [t |-> r.lines[i], hasp |-> TRUE, p |-> ParseLine(r.lines[i])]] IN
+  [hid |-> r.hid, kind |-> r.kind, cfg |-> [datafile |-> r.datafile, datalen |-> r.datalen], PL |-> PL, nl |-> r.nl,
+   base |-> ParseHeaderP(HdrInit(r.kind), PL, r.nl), written |-> r.written]
+\* the library must read back what it wrote
+HdrOk(r, h) == IF r.kind = "image"
+               THEN \E x \in {ImageJudge(h.base, h.cfg)} : x.k = "accept" /\ x.x = r.written.x /\ x.y = r.written.y /\ x.z = r.written.z
+               ELSE \E x \in {PDFSJudge(h.base, h.cfg)} :
+                      /\ x.k = "may" /\ x.fits /\ x.segs = r.written.segs /\ x.views = r.written.views /\ x.bins = r.written.bins
+                      /\ x.tof = r.written.tof /\ x.axial = r.written.axial
+\* the physical lines of a mutated header: base[1..keep] ++ fresh ++ base[keep+skip+1..]
+MutLines(r, h) == SubSeq(h.PL, 1, r.keep) \o [i \in 1..Len(r.fresh) |-> Plain(r.fresh[i])] \o SubSeq(h.PL, r.keep + r.skip + 1, Len(h.PL))
+MutRun(r, h) == ParseHeaderP(HdrInit(h.kind), MutLines(r, h), r.nl)
+Rejected(o) == o.verdict \in {"null", "error"}       \* "rejected through the library's error reporting"
+SortedSeq(q) == SortSeq(q, LAMBDA a, b : a < b)
+\* an image reader: exactly the modelled verdict
+ImageMutOk(r, h, run) ==
+  \E x \in {ImageJudge(run, h.cfg)} :
+    CASE x.k = "accept" -> /\ r.obs.verdict = "accepted"
+                           /\ r.obs.x = x.x /\ r.obs.y = x.y /\ r.obs.z = x.z      \* "sizes consistent with header"
+                           /\ r.obs.minz = 0 /\ r.obs.miny = -(x.y \div 2) /\ r.obs.minx = -(x.x \div 2)
+      [] x.k = "reject" -> Rejected(r.obs)
+      [] OTHER -> r.obs.verdict # "abort"
+\* a projection data reader: must reject what the model rejects; may accept otherwise, then with the
+\* announced shape, and all data can be read only if the file is long enough; a header with the same
+\* meaning as the one the library wrote must be read like it
+PDFSMutOk(r, h, run) ==
+  \E x \in {PDFSJudge(run, h.cfg)} :
+    CASE x.k = "reject" -> Rejected(r.obs)
+      [] x.k = "may" -> /\ r.obs.verdict # "abort"
+                        /\ r.obs.verdict = "accepted" =>
+                             /\ r.obs.segs = x.segs /\ r.obs.views = x.views /\ r.obs.bins = x.bins /\ r.obs.tof = x.tof
+                             /\ SortedSeq(r.obs.axial) = SortedSeq(x.axial)
+                             /\ (r.obs.readok => x.fits)                  \* never "silently accepted data whose size contradicts the header"
+                        /\ (run.verdict = "accepted" /\ Relevant(run.st.vars) = Relevant(h.base.st.vars)) => (r.obs.verdict = "accepted" /\ r.obs.readok)
+      [] OTHER -> r.obs.verdict # "abort"
+MutOk(r, h) == /\ h.hid = r.hid
+               /\ \E run \in {MutRun(r, h)} : IF h.kind = "image" THEN ImageMutOk(r, h, run) ELSE PDFSMutOk(r, h, run)
+
+(* ---- part (c): print - parse - print ------------------------------------ *)
+\* "Re-parsing the parameter text that an object prints for itself reproduces an object that prints
+\* the same text, for every registered parsable class" that can be default-constructed; lines of blanks
+\* are no-ops of the line machine and are not compared
+TextOf(lines) == SelectSeq(lines, HasNonBlank)
+RTOk(r) == IF ~r.constructed THEN r.abort = ""         \* outside the quantifier - but no crash while constructing
+           ELSE r.abort = "" /\ r.parsed /\ Len(TextOf(r.t1)) > 0 /\ TextOf(r.t1) = TextOf(r.t2)
+
+Explains(r, h) ==
   CASE r.e = "Run" -> RunOk(r)
+    [] r.e = "Hdr" -> HdrOk(r, h)
+    [] r.e = "Mut" -> MutOk(r, h)
+    [] r.e = "RT" -> RTOk(r)
     [] OTHER -> FALSE
 
 \* classification of an unexplained line by the signature of a known finding
-Classify(r) ==
+StartsWith(s, pre) == Len(s) >= Len(pre) /\ SubSeq(s, 1, Len(pre)) = pre
+Huge(n) == n > 1000000
+HugeAnnounced(v) == \/ \E d \in 1..Len(v.matrix_size) : \E i \in 1..Len(v.matrix_size[d]) : Huge(v.matrix_size[d][i])
+                    \/ ("min_ring_difference" \in DOMAIN v /\ \E i \in 1..Len(v.min_ring_difference) : Huge(v.min_ring_difference[i]))
+                    \/ ("max_ring_difference" \in DOMAIN v /\ \E i \in 1..Len(v.max_ring_difference) : Huge(v.max_ring_difference[i]))
+ClassifyMut(r, h, run) ==
+  LET v == run.st.vars IN
+  IF run.why = "IndexNotRepresentable" THEN "C17-indexwrap"
+  ELSE IF r.obs.verdict = "abort" /\ r.obs.kind = "asan:out-of-memory" /\ (run.why = "HugeLength" \/ HugeAnnounced(v)) THEN "C17-hugealloc"
+  ELSE IF r.obs.verdict = "abort" /\ run.verdict = "accepted" /\ (Len(v.data_offset) = 0 \/ Len(v.image_scaling_factors) = 0) THEN "C17-nodataset"
+  ELSE IF r.obs.verdict = "abort" /\ h.kind = "projdata" /\ run.why = "MissingMatrixSize" THEN "C17-matrixsize-missing"
+  ELSE IF r.obs.verdict = "abort" /\ h.kind = "projdata" /\ r.obs.kind = "ubsan:division by zero" THEN "C17-scanner-div0"
+  ELSE IF r.obs.verdict = "abort" /\ h.kind = "projdata" /\ (StartsWith(r.obs.kind, "ubsan:signed integer overflow") \/ StartsWith(r.obs.kind, "ubsan:negation of")) THEN "C17-ub-arith"
+  ELSE "new"
+Classify(r, h) ==
   IF r.e = "Run" /\ RunFed(r) THEN
-     LET x == RunExpected(r) IN
-     IF x.contAtEof /\ r.obs.verdict = "abort" THEN "C17-conteof"
-     ELSE IF x.why = "IndexNotRepresentable" /\ r.obs.verdict # "abort" THEN "C17-indexwrap"
-     ELSE "new"
+     (IF \E x \in {TestRun(r.gen.ids, r.gen.nl)} : x.contAtEof /\ r.obs.verdict = "abort" THEN "C17-conteof"
+      ELSE IF \E x \in {TestRun(r.gen.ids, r.gen.nl)} : x.why = "IndexNotRepresentable" /\ r.obs.verdict # "abort" THEN "C17-indexwrap"
+      ELSE "new")
+  ELSE IF r.e = "Mut" /\ h.hid = r.hid THEN
+     CHOOSE cls \in {"C17-hugealloc", "C17-nodataset", "C17-matrixsize-missing", "C17-scanner-div0", "C17-ub-arith", "C17-indexwrap", "new"} :
+        \E run \in {MutRun(r, h)} : cls = ClassifyMut(r, h, run)
+  ELSE IF r.e = "RT" /\ ~r.constructed /\ StartsWith(r.abort, "ubsan:member access within null pointer") /\ r.registry = "BinNormalisation" THEN "C17-norm-null"
   ELSE "new"
 
-Init == l = 1 /\ bad = <<>>
+Init == l = 1 /\ bad = <<>> /\ hc = NoHdr
 Next == /\ l <= Len(TraceLog)
-        /\ LET r == TraceLog[l]
-               okr == Explains(r)
-               cls == IF okr THEN "ok" ELSE Classify(r) IN
-           bad' = IF okr THEN bad
-                  ELSE IF cls = "new" THEN (IF Len(SelectSeq(bad, LAMBDA z : z[2] = "new")) < 200 THEN Append(bad, <<l, cls>>) ELSE bad)
-                  ELSE (IF Len(SelectSeq(bad, LAMBDA z : z[2] = cls)) < 10 THEN Append(bad, <<l, cls>>) ELSE bad)
+        /\ LET r == TraceLog[l] IN
+           /\ hc' = IF r.e = "Hdr" THEN HdrMemo(r) ELSE hc
+           /\ LET okr == Explains(r, hc')
+                  cls == IF okr THEN "ok" ELSE Classify(r, hc') IN
+              bad' = IF okr THEN bad
+                     ELSE IF cls = "new" THEN (IF Len(SelectSeq(bad, LAMBDA z : z[2] = "new")) < 200 THEN Append(bad, <<l, cls>>) ELSE bad)
+                     ELSE (IF Len(SelectSeq(bad, LAMBDA z : z[2] = cls)) < 10 THEN Append(bad, <<l, cls>>) ELSE bad)
         /\ l' = l + 1
-Spec == Init /\ [][Next]_<<l, bad>>
+Spec == Init /\ [][Next]_<<l, bad, hc>>
 Done == l > Len(TraceLog) => (bad = <<>> \/ PrintT(<<"UNEXPLAINED", bad>>))
 Consumed == IF TLCGet("stats").diameter - 1 = Len(TraceLog) THEN TRUE
             ELSE PrintT(<<"REJECTED_AT", TLCGet("stats").diameter>>) /\ FALSE
